@@ -640,6 +640,20 @@ def check_C05(tier):
     for n in drawn[:6 if quick else 60]:
         add(n, "depth", "drawn-root", depth=2)
         add(n, "movetime", "drawn-root", movetime=30)
+    # the end of the LONGEST games the position command accepts (383 half moves; the engine's history array leaves room for the
+    # search depth and nothing else): ChessGameLong.tla manoeuvres - reversible moves until the half-move clock is due, then a pawn
+    # move or capture - so that the games are not drawn by the fifty-move rule; from a locked pawn wall that is a king shuffle whose
+    # hash-table chains run in circles, from the initial position a long game with most of the material on the board
+    FORT = "4k3/p1p1p1p1/8/p1p1p1p1/P1P1P1P1/8/P1P1P1P1/4K3 w - - 0 1"
+    lcfg = game_cfg(383, 383, ["Move"], [], invariants=("TypeOK", "PosWellFormed", "NotFiftyMoveDrawn", "Obs"), walks=4 if quick else 24, walkseed=SEED)
+    lcfg = lcfg.replace("INIT Init\nNEXT Next", "SPECIFICATION LSpec").replace("CONSTANTS\n", "CONSTANTS\n  Mark = 55\n")
+    la = vlib.tlc("ChessGameLong", lcfg, files={"roots.ndjson": roots_ndjson([FORT, START_FEN])}, workers=4, tag="long-walk", timeout=3600)
+    ck.add_tlc(la)
+    lnodes = sl.load_nodes(la, want=lambda o: len(o["legal"]) > 0 and (len(o["path"]) in (383, 382, 380, 377, 373) or (o["root"] == 2 and len(o["path"]) >= 200 and len(o["path"]) % 11 == 0)))
+    for n in lnodes:
+        for d in ((4, 6, 8) if n["rootidx"] == 1 else (3,)):
+            add(n, "depth", "long-game", depth=d)
+        add(n, "nodes", "long-game", nodes=3000)
     recs = sl.run_jobs(jobs, procs=12)
     byid = {j["id"]: j for j in jobs}
     items = [pv_item(r, byid[r["id"]]) for r in recs if not r["error"]]
